@@ -367,6 +367,17 @@ def jobs_C06(tier, seed):
                 s = scn(copy.deepcopy(tr), cfg(max_request_concurrency=2), seed=seed, inject=inj)
                 jobs.append(job(f'{inj[0]["kind"]} {name} pre={pre}', s, BD(tier)['CANCEL'], want,
                                 monitor_fs=True, max_execs=400000))
+    # destination base names at and around the file system's 255-character limit (the temporary
+    # name must stay different from the destination and within the limit); same for the other front-ends
+    for nl in (255, 254, 248, 247):
+        for name in names:
+            for pre in (None, 'OLD-CONTENT'):
+                tr = copy.deepcopy(bt[name])
+                tr[0]['name_len'] = nl
+                if pre:
+                    tr[0]['preexisting'] = pre
+                s = inline(scn(tr, seed=seed, faults={'sites': FAULT_SITES_ALL}))
+                jobs.append(job(f'seq fault x1 {name} name_len={nl} pre={pre}', s, 1, want, monitor_fs=True))
     return jobs
 
 
@@ -494,7 +505,10 @@ def jobs_C10(tier, seed):
         A = A[:4]
     for i, a in enumerate(A):
         for n, trs in ((3, mixed_transfers(3)), (3, [T_dl('nonseekable', 'o5'), T_dl('nonseekable', 'o6'), T_dl('path', 'o4')]),
-                       (2, [T_up('nonseekable', 6), T_up('seekable', 5)])):
+                       (2, [T_up('nonseekable', 6), T_up('seekable', 5)]),
+                       # the single-request kinds: deletes, small copies and uploads, a small download
+                       (4, [T_del('o3'), T_del('o4'), T_cp('o3'), T_up('path', 3)]),
+                       (3, [T_del('o5'), T_dl('path', 'o3'), T_cp('o5')])):
             s = scn(copy.deepcopy(trs), cfg(**a), seed=seed)
             jobs.append(job(f'assign{i} mix{n}:{[t["op"] for t in trs]}', s, BD(tier)['PLAIN'], want,
                             max_execs=30000 if tier == 'quick' else 500000))
